@@ -129,9 +129,10 @@ class Fn:
                     lhs = d[3]["p"] if d[2] == "assign" else (d[3]["dest"] if d[2] == "call" else None)
                     if lhs is None or lhs["p"]:
                         return e
-                    if d[2] == "assign" and d[3]["rv"]["r"] == "agg" and d[3]["rv"].get("kind") == "adt":
+                    if d[2] == "assign" and d[3]["rv"]["r"] in ("agg", "use"):
+                        # (`use`: the helper hands on another call's result as it is - `self.end_of_day().await` as its tail)
                         alts.append(self._carriers(self.ex.rvalue(d[3]["rv"]), depth + 1, seen | {l}))
-                    elif d[2] == "call" and callee(d[3]).endswith("FromResidual::from_residual"):
+                    elif d[2] == "call":
                         alts.append(self._carriers(self.call_expr(d[3], d[0]), depth + 1, seen | {l}))
                     else:
                         return e
@@ -143,6 +144,26 @@ class Fn:
         if k in ("ref", "discr", "proj", "cast"):
             return (k, self._carriers(e[1], depth + 1, seen)) + tuple(e[2:])
         return e
+
+    def hands_on(self, e, name):
+        """the returned value *is* the (awaited) result of a call of `name` - `self.end_of_day().await` as the tail expression:
+        its failure is the caller's failure without any `?`"""
+        x = e
+        for _ in range(12):
+            if x[0] == "proj":
+                x = x[1]
+            elif x[0] == "agg" and len(x[2]) == 1 and str(x[1]).endswith(("Poll::Ready", "one-of")):
+                x = x[2][0]
+            elif x[0] == "ref":
+                x = x[1]
+            else:
+                break
+        if x[0] == "call" and x[1] == name:
+            return True
+        # through the future plumbing of an await: poll(pin(into_future(call)))
+        if x[0] == "call" and (x[1].endswith(("Future::poll", "Pin::<Ptr>::new_unchecked", "IntoFuture::into_future")) or "Pin" in x[1]) and x[2]:
+            return self.hands_on(x[2][0], name)
+        return False
 
     def classify_ret(self, e):
         """'ok' | 'err' | 'propagate' (from_residual of a failed `?`) | 'ok_or' | '?'"""
